@@ -37,6 +37,14 @@ func (h *hist) checkPass() {
 		if m.size != w.slots[m.src].size {
 			h.fail("C07", "move-size", fmt.Sprintf("move %d: size %d, allocation size %d", i, m.size, w.slots[m.src].size))
 		}
+		// C07: the destination is requested, reserved and committed under the source's own kind, alignment and flags
+		if m.src >= 0 && m.src < len(w.slots) && m.tmp >= 0 && m.tmp < len(w.slots) {
+			sa, ta := w.slots[m.src], w.slots[m.tmp]
+			if ta.reqKind != sa.kind || ta.commitKnd != sa.kind || ta.reqFlags != moveFlags(sa.kind) || ta.align != sa.align {
+				h.fail("C07", "destination-kind", fmt.Sprintf("move %d: source kind %d align %d flags %d; destination requested as kind %d, committed as kind %d align %d flags %d",
+					i, sa.kind, sa.align, moveFlags(sa.kind), ta.reqKind, ta.commitKnd, ta.align, ta.reqFlags))
+			}
+		}
 	}
 	// C15: per-pass limits
 	if bytes > lim(w.maxBytes) {
